@@ -126,7 +126,7 @@ func main() {
 				c.Violation(k, "send-template-error", err.Error(), desc)
 				return
 			}
-			raw, ok := s.Take(n, wait)
+			raw, ok := s.TakeMsg(n, wait)
 			if !ok {
 				c.Inconclusive(fmt.Sprintf("case %d: template message did not arrive at the raw peer", k))
 				broken = true // a late arrival would be taken for a later case: this session is not used again
@@ -166,7 +166,7 @@ func main() {
 			}
 			if target > 65535 {
 				// accepted although it cannot fit one message: what is on the wire must still be one well-formed message
-				raw, _ = s.Take(n, wait)
+				raw, _ = s.TakeMsg(n, wait)
 				if _, perr := refipfix.ParseMessage(raw); perr != nil || len(raw) > 65535 {
 					c.Violation(k, "malformed-near-limit", fmt.Sprintf("a set needing a %d-byte message was accepted and %d bytes were written that are not a well-formed message: %v", target, len(raw), perr), desc)
 				} else {
@@ -177,7 +177,7 @@ func main() {
 			if nearLimit {
 				c.Add("near_limit_messages", 1)
 			}
-			raw, ok = s.Take(n, wait)
+			raw, ok = s.TakeMsg(n, wait)
 			if !ok {
 				c.Inconclusive(fmt.Sprintf("case %d: data message (%d bytes) did not arrive at the raw peer", k, n))
 				broken = true
@@ -202,8 +202,8 @@ func main() {
 func checkMessage(c *hx.Ctx, k int, desc any, s *lib.ExpSession, raw []byte, n int, isTemplate bool, tid uint16, elems []regtable.Elem, recs [][][]byte, wire map[uint16][]refipfix.Field, tBefore int64) bool {
 	c.Eval(1)
 	if n != len(raw) {
-		c.Violation(k, "bytes-reported", fmt.Sprintf("SendSet reported %d bytes, %d captured", n, len(raw)), desc)
-		return false
+		// no property speaks about SendSet's count; "the bytes actually sent" are the captured ones
+		c.Add("sendset_count_differs_from_capture", 1)
 	}
 	if len(raw) > 65535 {
 		c.Violation(k, "oversize", fmt.Sprintf("%d-byte message", len(raw)), desc)
@@ -233,8 +233,8 @@ func checkMessage(c *hx.Ctx, k int, desc any, s *lib.ExpSession, raw []byte, n i
 			c.Violation(k, "template-malformed", err.Error(), desc)
 			return false
 		}
-		if len(rest) != 0 {
-			c.Violation(k, "template-trailing", fmt.Sprintf("%d bytes after the template record", len(rest)), desc)
+		if !refipfix.SameBody(rest, nil, 4) { // RFC 7011 3.3.2: zero padding shorter than a record header is allowed
+			c.Violation(k, "template-trailing", fmt.Sprintf("%d bytes after the template record that are not set padding", len(rest)), desc)
 			return false
 		}
 		if id != tid || len(fields) != len(elems) {
@@ -252,8 +252,7 @@ func checkMessage(c *hx.Ctx, k int, desc any, s *lib.ExpSession, raw []byte, n i
 				c.Add("iana_specifiers", 1)
 			}
 		}
-		want := refipfix.BuildMessage(m.Domain, m.Seq, m.ExportTime, 2, refipfix.EncodeTemplateRecord(tid, gen.Fields(elems)))
-		if !bytes.Equal(raw, want) {
+		if !refipfix.SameBody(m.Body, refipfix.EncodeTemplateRecord(tid, gen.Fields(elems)), 4) {
 			c.Violation(k, "template-bytes", "template message differs from the reference encoding", desc)
 			return false
 		}
@@ -280,9 +279,13 @@ func checkMessage(c *hx.Ctx, k int, desc any, s *lib.ExpSession, raw []byte, n i
 		widths[i] = f.Len
 	}
 	got, pad, ok, why := refipfix.SplitRecords(m.Body, widths)
-	if !ok || pad != 0 {
-		c.Violation(k, "data-unparseable", fmt.Sprintf("data set does not parse under the wire template: %s (padding %d)", why, pad), desc)
+	if !ok || !refipfix.SameBody(m.Body[len(m.Body)-pad:], nil, pad+1) {
+		// leftover bytes shorter than the shortest record are RFC 7011 3.3.2 padding if they are zero
+		c.Violation(k, "data-unparseable", fmt.Sprintf("data set does not parse under the wire template: %s (%d trailing bytes)", why, pad), desc)
 		return false
+	}
+	if pad != 0 {
+		c.Add("data_sets_with_padding", 1)
 	}
 	if len(got) != len(recs) {
 		c.Violation(k, "record-count", fmt.Sprintf("%d records on the wire, %d sent", len(got), len(recs)), desc)
